@@ -18,7 +18,7 @@ Theorem C20_driver_table :
 Proof. vm_compute. reflexivity. Qed.
 
 (* Exit status.  For every flag set that names a file and does not ask for help, and every world in
-   which `lua` can be started (run mode) resp. the output file can be created and the write does not fail
+   which `lua` can be started (run mode) resp. the output file can be created and write_all succeeds
    (-o FILE), and in which the compiler does not return an empty error list:
    status 0 <-> compilation succeeded /\ (run mode -> the child wrote nothing to stderr). *)
 Theorem C20_exit_zero_iff : forall st f w,
@@ -34,7 +34,7 @@ Theorem C20_exit_zero_iff_full : forall st f w, compiles_something f ->
         match output_mode_of f with
         | ORun => w_lua_found w = true /\ c_stderr (w_child w bytes) = ""
         | OStdout => True
-        | OFile _ => w_create w = CreateOk /\ forall e, w_write w <> WriteFails e
+        | OFile _ => w_create w = CreateOk /\ w_write w = WroteAll
         end).
 Proof. exact exit_zero_iff_full. Qed.
 
@@ -100,25 +100,28 @@ Theorem C20_file_untouched_in_other_modes : forall st f w,
   (forall p, output_mode_of f <> OFile p) -> r_file (main st f w) = Untouched.
 Proof. exact file_untouched_in_other_modes. Qed.
 
-(* ... and, when the operating system's write is all-or-error-free, FILE is untouched or holds exactly
-   the compiled bytes (and then the status is 0). *)
+(* ... and, when the write does not fail, FILE is untouched or holds exactly the compiled bytes (and then
+   the status is 0). *)
 Theorem C20_o_file_all_or_nothing : forall st f w,
-  write_is_atomic w ->
+  write_succeeds w ->
   r_file (main st f w) = Untouched \/
   (exists bytes, w_compile w = COk bytes /\ r_file (main st f w) = Holds bytes /\ r_status (main st f w) = 0%N).
 Proof. exact o_file_all_or_nothing. Qed.
 
-(* Without that hypothesis the statement is FALSE for the code as written (`write`, not `write_all`,
-   after File::create): a short write gives status 0 and a truncated program; a failing write leaves
-   an empty file.  Both are OS behaviour the property text does not exclude. *)
-Theorem C20_o_file_short_write_refuted : forall st,
-  exists f w bytes, compiles_something f /\ w_compile w = COk bytes /\
-    r_status (main st f w) = 0%N /\ r_file (main st f w) = Holds "ab" /\ bytes = "abc".
-Proof. exact o_file_short_write_refuted. Qed.
+(* For EVERY world (write_all: a short write is not success): status 0 in -o FILE mode means FILE holds the
+   complete program. *)
+Theorem C20_o_file_status_zero_complete : forall st f w p,
+  compiles_something f -> output_mode_of f = OFile p -> errors_nonempty w ->
+  r_status (main st f w) = 0%N ->
+  exists bytes, w_compile w = COk bytes /\ r_file (main st f w) = Holds bytes.
+Proof. exact o_file_status_zero_complete. Qed.
 
+(* Without the hypothesis `write_succeeds` all-or-nothing is still FALSE for the code as written: a write
+   that fails after File::create (full disk, file-size limit) leaves FILE truncated / partly written, with
+   status 1.  (Open known finding; needs write-to-temporary + rename.) *)
 Theorem C20_o_file_failed_write_refuted : forall st,
   exists f w bytes, compiles_something f /\ w_compile w = COk bytes /\
-    r_status (main st f w) = 1%N /\ r_file (main st f w) = Holds "" /\ bytes = "abc".
+    r_status (main st f w) = 1%N /\ r_file (main st f w) = Holds "a" /\ bytes = "abc".
 Proof. exact o_file_failed_write_refuted. Qed.
 
 (* -o - writes to stdout the bytes -o FILE writes to the file. *)
@@ -180,7 +183,7 @@ Print Assumptions C20_child_gets_program.
 Print Assumptions C20_o_file_untouched_on_error.
 Print Assumptions C20_file_untouched_in_other_modes.
 Print Assumptions C20_o_file_all_or_nothing.
-Print Assumptions C20_o_file_short_write_refuted.
+Print Assumptions C20_o_file_status_zero_complete.
 Print Assumptions C20_o_file_failed_write_refuted.
 Print Assumptions C20_o_dash_same_bytes.
 Print Assumptions C20_require_once.
